@@ -418,6 +418,9 @@ def main():
         text = gen_tables.render(REPO, coq_str, coq_ident, local_const, TranslateError)
         if write_if_changed(os.path.join(GEN, 'Tables.v'), text):
             changed.append('Tables.v')
+        import gen_pytables
+        if write_if_changed(os.path.join(GEN, 'PyTables.v'), gen_pytables.render(TranslateError)):
+            changed.append('PyTables.v')
         os.makedirs(os.path.dirname(CACHE), exist_ok=True)
         json.dump(_cs_cache, open(CACHE, 'w'))
         json.dump(em.meta, open(os.path.join(VERIF, '_build', 'patterns_meta.json'), 'w'), indent=1)
